@@ -196,6 +196,7 @@ main(void)
                until protocols_sign no longer answers -1 (= H1 steering unmet) */
             long long smax = 1, slen = 0, sseed = 0;
             int steer = sscanf(line, "signsteer %lld %lld %lld", &smax, &slen, &sseed) == 3;
+            fprintf(stderr, "drv-mark: sign\n");
             printf("R begin sign\n");
             int r = -1;
             long long tries = 0;
@@ -235,10 +236,12 @@ main(void)
             unsigned char *m2 = NULL;
             size_t l2 = 0;
             set_msg(&m2, &l2, (size_t)n1, (uint64_t)n2);
+            fprintf(stderr, "drv-mark: verify_msg\n");
             printf("R begin verify_msg\n");
             printf("R verify_msg %d\n", protocols_verif(&sig, &pk, m2, l2));
             free(m2);
         } else if (!strncmp(line, "verify_pk2", 10)) {
+            fprintf(stderr, "drv-mark: verify_pk2\n");
             printf("R begin verify_pk2\n");
             printf("R verify_pk2 %d\n", protocols_verif(&sig, &pk2, msg, msglen));
         } else if (!strncmp(line, "verify", 6)) {
@@ -246,6 +249,7 @@ main(void)
                 printf("R verify skipped\n");
                 continue;
             }
+            fprintf(stderr, "drv-mark: verify\n");
             printf("R begin verify\n");
             printf("R verify %d\n", protocols_verif(&sig, &pk, msg, msglen));
 #endif
